@@ -180,7 +180,7 @@ fn build(ch: &mut Chooser, fmt: &'static str) -> FCase {
                 _ if mulrk => biff8::BCell::MulRk { r: 1, c0: 0, items: vec![(0, 6), (st, w)] },
                 _ => biff8::BCell::Rk { r: 1, c: 1, xf: st, rk: w },
             };
-            let book = biff8::BBook { sheets: vec![biff8::BSheet::new("S", vec![cell])], formats: fmts.clone(), xfs: xfs.clone(), date1904: is1904, ..Default::default() };
+            let book = biff8::BBook { sheets: vec![biff8::BSheet::new("S", vec![cell])], formats: fmts.clone(), xfs: xfs.clone(), date1904: is1904, formats_wide: ch.flag("xls.format-strings-16bit"), ..Default::default() };
             let mut stream = biff8::workbook_stream(&book);
             if stream.len() < 4096 { stream.resize(4096, 0); }
             // an integer-valued RK int with a non-date style reads as Int
